@@ -129,6 +129,63 @@ def run_scenario_property(pid, tier, seed, scale=1.0, extra_outs=(), mc_stats=()
     return _finish(pid, tier, seed, t0, outs, list(mc_stats), P['rule'], ASSUME, extra_cov)
 
 
+def fault_variants(profile, n, seed, per_scenario, tag, fault_calls=None):
+    """Base histories run once under the interposer to *measure* the eligible library calls
+    (mkdir / makedirs / rename / cache open+write), then one variant per chosen fault point."""
+    import copy
+    import random
+    base = []
+    for i in range(n):
+        sc = gen.make_scenario(seed * 1_000_000 + i, profile)
+        sc['interpose'] = True
+        if fault_calls:
+            sc['fault_calls'] = list(fault_calls)
+        sc['id'] = '%s-%s' % (tag, sc['id'])
+        base.append(sc)
+    traces = runner.run_scenarios(base)
+    out = list(base)
+    rnd = random.Random('faults:%d' % seed)
+    for sc, t in zip(base, traces):
+        n_el = t.get('eligible', 0)
+        if not n_el:
+            continue
+        ks = list(range(1, n_el + 1))
+        if per_scenario and len(ks) > per_scenario:
+            ks = sorted(rnd.sample(ks, per_scenario))
+        for k in ks:
+            v = copy.deepcopy(sc)
+            v['fault_at'] = k
+            v['id'] = '%s@k%d' % (sc['id'], k)
+            out.append(v)
+    return out
+
+
+def run_fault_property(pid, tier, seed, scale=1.0):
+    t0 = time.time()
+    P = props.PROPS[pid]
+    nq, nt, per_q, per_t = P['fault_units']
+    n = int((nq if tier == 'quick' else nt) * scale)
+    scs = fault_variants(P.get('fault_profile', 'fault'), n, seed, per_q if tier == 'quick' else per_t, pid,
+                         P.get('fault_calls'))
+    for prof, q, t in P.get('units', []):
+        if prof == 'regress':
+            from .main import load_regress
+            for sc in load_regress():
+                sc = dict(sc)
+                sc['id'] = sc['id'] + '@' + pid
+                scs.append(sc)
+            continue
+        m = int((q if tier == 'quick' else t) * scale)
+        scs += [gen.make_scenario(seed * 1_000_000 + i, prof) for i in range(m)]
+    outs = []
+    CH = 6000
+    for i in range(0, len(scs), CH):
+        outs.append(runner.judge(pid, scs[i:i + CH], set(P['owned']), P['nontrivial'], tlc))
+    return _finish(pid, tier, seed, t0, outs, [], P['rule'], ASSUME + [
+        'fault space = the library\'s own mkdir/makedirs/rename/cache-open/cache-write calls issued before '
+        'commit or rollback starts (C14 statement); one fault per execution'])
+
+
 def replay(pid, path):
     with open(path) as f:
         d = json.load(f)
